@@ -10,7 +10,6 @@ CONSTANTS
  NoCleanup = FALSE
 INIT Init
 NEXT Next
-CONSTRAINT Bound
 VIEW View
 ACTION_CONSTRAINT Edge
 CHECK_DEADLOCK FALSE
